@@ -24,6 +24,9 @@ typedef unsigned char u8;
 #define SYS_clone 56
 #define SYS_fork 57
 #define SYS_vfork 58
+#ifndef SYS_execve
+#define SYS_execve 59
+#endif
 #define SYS_exit 60
 #define SYS_wait4 61
 #define SYS_kill 62
@@ -145,7 +148,7 @@ struct kstat { u64 dev, ino, nlink; u32 mode, uid, gid, pad; u64 rdev; i64 size,
 
 static int arity(const char *op) {
   static const char *a0[] = {"join", "dfl", "killlast", "state", "wait", "pause", "ignore", "block", "setsid", "flush", "segv", 0};
-  static const char *a1[] = {"exit", "raise", "fds", "sleep", "burn", "alloc", "fork", "vfork", "thread", "daemon", "out", "pid", "ls", "statfs", "mods", "kill", "threadraise", "cat", "stack", "savemtime", "restoremtime", 0};
+  static const char *a1[] = {"exit", "raise", "fds", "sleep", "burn", "alloc", "fork", "vfork", "spawn", "thread", "daemon", "out", "pid", "ls", "statfs", "mods", "kill", "threadraise", "cat", "stack", "savemtime", "restoremtime", 0};
   static const char *a2[] = {"write", "grow", "rlim", 0};
   static const char *a3[] = {"rv", 0};
   for (int i = 0; a0[i]; i++) if (seq(op, a0[i])) return 0;
@@ -157,6 +160,7 @@ static int arity(const char *op) {
 }
 
 static char **av;
+static char **envp0;
 static int ac;
 static i64 lastpid;
 static volatile int live_threads;
@@ -165,7 +169,7 @@ static int skip(int i, int k) { /* index after k ops starting at i */
   while (k-- > 0 && i < ac) {
     const char *op = av[i];
     int n = arity(op);
-    if (seq(op, "fork") || seq(op, "vfork") || seq(op, "thread") || seq(op, "daemon")) {
+    if (seq(op, "fork") || seq(op, "vfork") || seq(op, "spawn") || seq(op, "thread") || seq(op, "daemon")) {
       int inner = (int)num(av[i + 1]);
       i = skip(i + 2, inner);
       continue;
@@ -288,6 +292,17 @@ static void run(int i, int end) {
     const char *a1 = i + 1 < ac ? av[i + 1] : "";
     const char *a2 = i + 2 < ac ? av[i + 2] : "";
     const char *a3 = i + 3 < ac ? av[i + 3] : "";
+    if (seq(op, "spawn")) { /* posix_spawn style: vfork, and the child at once execs this program again with the inner ops as its script */
+      int inner = (int)num(a1), body = i + 2, after = skip(body, inner);
+      oflush();
+      static char *nargv[64]; int k = 0; nargv[k++] = av[0];
+      for (int q = body; q < after && k < 62; q++) nargv[k++] = av[q];
+      nargv[k] = 0;
+      i64 pid = sc(SYS_vfork, 0, 0, 0, 0, 0, 0);
+      if (pid == 0) { sc(SYS_execve, (i64)av[0], (i64)nargv, (i64)envp0, 0, 0, 0); sc(SYS_exit_group, 127, 0, 0, 0, 0, 0); }
+      lastpid = pid; os("spawn "); oi(pid); nl();
+      i = after; continue;
+    }
     if (seq(op, "fork") || seq(op, "vfork") || seq(op, "thread") || seq(op, "daemon")) {
       int inner = (int)num(a1), body = i + 2, after = skip(body, inner);
       oflush();
@@ -384,6 +399,7 @@ static void run(int i, int end) {
 void vmain(u64 *sp) {
   ac = (int)sp[0];
   av = (char **)(sp + 1);
+  envp0 = av + ac + 1;
   run(1, ac);
   oflush();
   sc(SYS_exit_group, 0, 0, 0, 0, 0, 0);
